@@ -515,7 +515,11 @@ static void GC_Set(var self, var key, var val) {
 
 static void GC_Rem(var self, var key) {
   struct GC* gc = self;
-  if (not gc->running) { return; }
+  if (not gc->running) {
+    if (GC_Mem_Ptr(gc, key)) { GC_Rem_Ptr(gc, key); }
+    else { dealloc(destruct(key)); }
+    return;
+  }
   GC_Rem_Ptr(gc, key);
   GC_Resize_Less(gc);
   gc->mitems = gc->nitems + gc->nitems / 2 + 1;
